@@ -32,6 +32,7 @@ def _(self, minimum: IntOrMin, maximum: IntOrMax, has_extension_marker: Bool):
 
 @contract("Integer.encode", props=["C05", "C01", "C12"])
 def _(self, data: Int, encoder: Obj("Encoder")):
+    refines("asn1tools/codecs/per.py::Type.encode")
     # X.691 13: extension bit (0 = inside the root) when extensible; root: constrained whole number of blen(ub-lb)
     # bits for a finite range, otherwise (or outside the root) an unconstrained whole number
     requires(encoder.number_of_bits <= 3900)
@@ -172,6 +173,7 @@ def _(self, data: Bytes, encoder: Obj("Encoder")):
 
 @contract("OctetString.encode", props=["C05", "C01"])
 def _(self, data: Bytes, encoder: Obj("Encoder")):
+    refines("asn1tools/codecs/per.py::Type.encode")
     # X.691 17 (unaligned): fixed size: the octets, no length; bounded size: n - lb in blen(ub - lb) bits, then the
     # octets; outside an extensible root: extension bit 1, a general length determinant, the octets
     requires(encoder.number_of_bits <= 3000)
